@@ -238,8 +238,8 @@ Print Assumptions C19_conformance_automaton_sound.
 (* whole-round replay (Model/BlockR.v): the scheduler only takes steps of Block.gstep, so the state whose words and
    counters a successful replay of a recorded round reports is reachable; the boolean invariant evaluated on it is true of
    every reachable state (a `false` would be a broken proof, not a property of the library) *)
-Theorem C19_replay_reach : forall pf w qs ord,
-  reach pf (fst (fst (fst (fst (sched (S (length ord)) w (map fst qs) (init_state pf) qs ord 0 0))))).
+Theorem C19_replay_reach : forall pf w qs ents ord,
+  reach pf (fst (fst (fst (fst (sched (S (length ord)) w (map fst qs) (init_state pf) qs ents ord 0 0))))).
 Proof. exact replay_reach. Qed.
 Print Assumptions C19_replay_reach.
 Theorem C19_inv_b_reach : forall pf s ths, reach pf s -> inv_b s ths = true.
@@ -252,10 +252,10 @@ Print Assumptions C19_inv_b_reach.
    reproduced by the replay (second component of its result = recorded events left over) *)
 Theorem C19_replay_refuses_inconsistent_rounds :
   conform 8 false [Uv DVU_CALL OP_TESTCANCEL 0; Uv DVU_RET 1 0] = (-1, 1) /\
-  nth 1 (replay false 8 neg1_qs [8; 8]) 0 = 1 /\
-  nth 1 (replay false 8 neg2_qs [7; 7; 7; 11; 11; 11]) 0 = 3 /\
-  nth 1 (replay false 8 neg3_qs [6; 6; 6; 5; 5; 5; 5; 5; 5]) 0 = 5 /\
-  nth 1 (replay false 8 neg4_qs [11; 11; 11; 11; 11]) 0 = 5.
+  nth 1 (replay false 8 neg1_qs [] [8; 8]) 0 = 1 /\
+  nth 1 (replay false 8 neg2_qs [11] [7; 7; 7; 11; 11; 11]) 0 = 3 /\
+  nth 1 (replay false 8 neg3_qs [] [6; 6; 6; 5; 5; 5; 5; 5; 5]) 0 = 5 /\
+  nth 1 (replay false 8 neg4_qs [11] [11; 11; 11; 11; 11]) 0 = 5.
 Proof. exact negative_replays. Qed.
 Print Assumptions C19_replay_refuses_inconsistent_rounds.
 
